@@ -37,7 +37,7 @@ WEAK = [
     ("StaticPool_WeakCap.cfg", "Cex_StaticCap", "ctrl"),
     ("StaticPool_WeakLeak.cfg", "Cex_ReservedExact", "ctrl"),
     ("StaticPool_WeakGhost.cfg", "Cex_NoGhost", "ctrl"),
-    ("StaticPool_WeakRelaunch.cfg", "Cex_StaticCap", None),   # needs a scheduling point inside cluster.UpdateNodeClaim
+    ("StaticPool_WeakRelaunch.cfg", "Cex_StaticCap", "window"),   # scheduling point inside cluster.UpdateNodeClaim
     ("StaticPool_WeakLive.cfg", "temporal", None),
 ]
 UNIT_WEAK = [("StaticPoolUnit_WeakCode.cfg", "Inv_C03_NoCrash"), ("StaticPoolUnit_WeakCode2.cfg", "Inv_C03_CountsMatchSets"),
@@ -154,11 +154,35 @@ def level1(run):
 
 
 # ---------------------------------------------------------------------------------------------- level 2
+def window_steps(h):
+    """A history at method-call granularity whose informer delivery of a provider-id change (I_Deliver what=relaunch ..
+    I_Update) has a provisioning count+reserve inside -> driver steps: the real controllers are gated at API calls only,
+    so create/seed/release are one step, and the delivery opens the window through the clock read inside
+    cluster.UpdateNodeClaim."""
+    out = []
+    for e in h:
+        a = e["a"]
+        if a in ("W_Seed", "W_Release", "I_Update"):
+            continue
+        if a == "W_Create":
+            out.append({"a": "W_Get", "w": e["w"]})
+            out.append(e)
+        elif a == "I_Deliver" and e.get("what") == "relaunch":
+            out.append(dict(e, what="relaunch-window"))
+        elif a == "Launch":
+            out.append(dict(e, what="claim-event-first"))
+        else:
+            out.append(e)
+    return out
+
+
 def level2(run, cex):
     behs = []
     for cfg, level, h in cex:
         if level == "ctrl":
             behs.append({"cfg": ctl_cfg(run, cfg, probe=True), "steps": h, "tag": "tlc-cex:" + cfg[len("StaticPool_"):-4]})
+        elif level == "window":
+            behs.append({"cfg": ctl_cfg(run, cfg, probe=False), "steps": window_steps(h), "tag": "tlc-cex:" + cfg[len("StaticPool_"):-4]})
     n = CTL_SIM[run.tier]
     hs = run.generate("StaticPool", "StaticPool_Gen.cfg", workers=1, simulate="num=%d" % n, depth=60, timeout=1500)
     if not hs:
@@ -226,10 +250,6 @@ def stage_static(run):
     run.samples.append({"level": "ctrl", "tag": behs[0]["tag"], "steps": behs[0]["steps"]})
     run.samples.append({"level": "ctrl", "tag": behs[-1]["tag"], "steps": behs[-1]["steps"]})
     run.exhaustive = True
-    relaunch = [h for cfg, level, h in cex if "Relaunch" in cfg]
-    if relaunch:
-        run.notes.append("not replayable without a scheduling point inside cluster.UpdateNodeClaim (model-level finding only): "
-                         "reserve between NodePoolState.Cleanup and UpdateNodeClaim on provider-id change: %s" % json.dumps(relaunch[0]))
     run.assumptions += [
         "C03 static half only: the dynamic-limits half (scheduler remainingResources / subtractMax / Synced gate) is a later stage",
         "one static NodePool; launch / registration / initialization and finalization of NodeClaims are environment steps "
